@@ -1138,6 +1138,30 @@ func (a *Activation) loopHead(li *loopInfo, b *ssa.BasicBlock, st *State) *State
 			t.oblige("loopinv", name, c.Label, st.pc, v, c.Src, part)
 		}
 	}
+	// ghost locals written by call hooks may have been written by earlier iterations: arbitrary at the head (an invariant
+	// has to say what is known about them). Hook targets are read off the contract, so this does not depend on visit order.
+	if con := a.rootContract(); con != nil && a.rootAct() == a {
+		for _, c := range con.Clauses {
+			if c.Kind != "oncall" && c.Kind != "beforecall" && c.Kind != "onwrite" {
+				continue
+			}
+			for _, as := range strings.Split(c.Expr, ";") {
+				k := strings.Index(as, ":=")
+				if k < 0 {
+					continue
+				}
+				name := strings.TrimSpace(as[:k])
+				if strings.ContainsAny(name, ".[ ") {
+					continue
+				}
+				if old, ok := a.lets[name]; ok && old.isScalar() {
+					nv := old
+					nv.S = t.fresh("ghost:"+name+"@loop", old.sort())
+					a.lets[name] = nv
+				}
+			}
+		}
+	}
 	// remember the values for 'decreases'
 	// 2. havoc loop-carried values and the heap written in the loop
 	for _, in := range b.Instrs {
